@@ -85,7 +85,7 @@ func (g *G) MsgStress(allowPlural bool) []Cmd {
 		return ph{expr: &Expr{Op: "ref", Name: holder, Access: []Access{{Kind: "key", Key: id}}}}
 	}
 	tags := []string{"<a href=\"u\">", "</a>", "<b>", "</b>", "<br/>", "<br>", "<i>", "</i>", "<span class=\"c\">", "</span>", "<img src=\"i.png\"/>", "<a href=\"other\">", "<p>", "<li>", "<em>", "<h1>", "<A>", "<ul>", "</ul>", "<ol>", "</li>", "<h2>", "</h1>", "<input type=\"t\"/>", "<tBody>", "<TD>", "</em>", "<img src=\"j.png\">", "<br />", "<x1y>"}
-	words := []string{"zero\ufeffwidth ", "Hello ", "you have ", " new items", " and ", "!", ", ", "Click ", "here", " from ", "{sp}"}
+	words := []string{"zero\ufeffwidth ", "Hello ", "you have ", " new items", " and ", "!", ", ", "Click ", "here", " from ", "{sp}", "{lb}", "{rb}", "{lb}"}
 
 	defined := map[string]bool{}
 	var lets []Cmd
@@ -102,8 +102,9 @@ func (g *G) MsgStress(allowPlural bool) []Cmd {
 			switch g.Weighted(35, 45, 20) {
 			case 0:
 				w := words[g.Intn(len(words))]
-				if w == "{sp}" {
-					out = append(out, Cmd{K: "sp"})
+				if w == "{sp}" || w == "{lb}" || w == "{rb}" {
+					// (special character commands: the braces are text of the message, whatever follows them)
+					out = append(out, Cmd{K: w[1:3]})
 				} else {
 					out = append(out, Cmd{K: "text", Text: w})
 				}
